@@ -1,6 +1,7 @@
 import HpxVerif.Lemmas.BmocAnd
 import HpxVerif.Lemmas.BmocEnc
 import HpxVerif.Lemmas.BmocNot
+import HpxVerif.Lemmas.BmocXor3
 
 /-!
 # C08 — BMOC operators follow the documented three-valued semantics with partial flags
@@ -12,9 +13,11 @@ own `depth_max` and encodes the result with the larger one, as the code does).
 
 Proved here for all (pairs of) well-formed operands: `and` (pointwise minimum, result well formed) and **`not`
 (`not3_sem`: absent ↔ full, partial kept; result well formed and in range; every produced cell is full or an unchanged
-partial cell of the operand)**.  `or`, `xor`: the executable model mirrors the code loop by loop and is tied to it by the
-correspondence check (exhaustive one-level universe, sampled two-level universe, random deep trees); their `*_sem`
-theorems are open statements and are not counted as obligations until proved.
+partial cell of the operand)**.  **`xor` (`xor3_sem` on cell lists, `xor_bmoc` for the public operator including re-encoding and `pack`: never panics
+on valid operands, result valid, well formed, pointwise the documented table).**
+`or`: the executable model mirrors the code loop by loop and is tied to it by the correspondence check (exhaustive
+one-level universe, sampled two-level universe, random deep trees); its `*_sem` theorem is an open statement and is
+not counted as an obligation until proved.
 -/
 
 namespace Hpx.C08
@@ -54,5 +57,34 @@ theorem not3_flags (a : List Cell) (c : Cell) (hc : c ∈ notCells a) : c.full =
   mem_notCells_flag a c hc
 
 theorem not_table : Tri.not .abs = .full ∧ Tri.not .part = .part ∧ Tri.not .full = .abs := ⟨rfl, rfl, rfl⟩
+
+/-! ## `xor` -/
+
+/-- **`xor`, three-valued, on cell lists** (before `pack`): for every pair of well-formed in-range operands of depth
+    `≤ 29` the merge loop never panics, and the result denotes the documented table pointwise -/
+theorem xor3_sem (D : Nat) (hD : D ≤ 29) (a b : List Cell) (ha : WF D a) (hb : WF D b)
+    (hra : ∀ c ∈ a, InR c) (hrb : ∀ c ∈ b, InR c) :
+    ∃ l, xorCellsUnpacked a b = some l ∧ (WF D l ∧ ∀ c ∈ l, InR c) ∧
+      ∀ x, stOf D l x = Tri.xor (stOf D a x) (stOf D b x) := by
+  obtain ⟨l, hl⟩ := xorCells_some D hD a b ha hb hra hrb
+  exact ⟨l, hl, Hpx.Bmoc.xor_wf D hD a b ha hb hra hrb l hl, fun x => xor3_sem_all D hD a b ha hb hra hrb l hl x⟩
+
+/-- **the public operator `BMOC::xor`** (merge loop, re-encoding with the larger `depth_max`, `pack`): for every pair of
+    valid BMOCs (each well formed w.r.t. its own `depth_max ≤ 29`) it returns a BMOC with `depth_max = max`, valid
+    strictly increasing entries, well formed, denoting the documented table pointwise -/
+theorem xor_bmoc (A B : BMOC) (hA : A.dmax ≤ 29) (hB : B.dmax ≤ 29)
+    (hvA : ∀ e ∈ A.entries, ValidRaw A.dmax e) (hvB : ∀ e ∈ B.entries, ValidRaw B.dmax e)
+    (hwA : WF A.dmax A.cells) (hwB : WF B.dmax B.cells) :
+    ∃ R, BMOC.xor A B = some R ∧ R.dmax = max A.dmax B.dmax ∧
+      (∀ e ∈ R.entries, ValidRaw R.dmax e) ∧ R.entries.Pairwise (· < ·) ∧
+      WF (max A.dmax B.dmax) R.cells ∧ (∀ c ∈ R.cells, InR c) ∧
+      ∀ x, stOf (max A.dmax B.dmax) R.cells x =
+        Tri.xor (stOf (max A.dmax B.dmax) A.cells x) (stOf (max A.dmax B.dmax) B.cells x) :=
+  bmoc_xor_valid A B hA hB hvA hvB hwA hwB
+
+/-- the documented table of `xor` -/
+theorem xor_table : Tri.xor .abs .full = .full ∧ Tri.xor .part .abs = .part ∧ Tri.xor .full .full = .abs ∧
+    Tri.xor .abs .abs = .abs ∧ Tri.xor .part .full = .part ∧ Tri.xor .full .part = .part ∧ Tri.xor .part .part = .part := by
+  decide
 
 end Hpx.C08
